@@ -94,6 +94,16 @@ __CPROVER_assigns(LC)
 __CPROVER_ensures(LC.calls == 1 && LC.f == self->file_ && LC.tracks == self->header_.number_of_track)
 __CPROVER_ensures(LC.has_off && LC.off == self->header_.track_list_offset);
 
+/* the encoding of a track is the header's track_encoding, except track 0, where side 0 / side 1 use their own field
+   (track0s0_encoding / track0s1_encoding) when that side's alternative-encoding byte is 0 */
+#include "hfe_encoding_of_track.inc"
+static unsigned char hfe_encoding_of_track(const struct HfeFileL *self, int side, int track)
+__CPROVER_requires(__CPROVER_is_fresh(self, sizeof(*self)))
+__CPROVER_assigns()
+__CPROVER_ensures(__CPROVER_return_value ==
+                  ((track == 0 && side == 0 && self->header_.track0s0_altencoding == 0) ? self->header_.track0s0_encoding :
+                   (track == 0 && side != 0 && self->header_.track0s1_altencoding == 0) ? self->header_.track0s1_encoding : self->header_.track_encoding));
+void h_encoding_of_track(void) { const struct HfeFileL *f; hfe_encoding_of_track(f, nondet_int(), nondet_int()); }
 void h_le_word(void) { const byte *d; hfe_le_word(d); }
 void h_le_word_it(void) { const byte *d; hfe_le_word_it(d); }
 void h_pictrack(void) { struct PicTrack *t; const unsigned char *p; PicTrack_ctor(t, p); }
